@@ -442,10 +442,18 @@ def expr_case(ctx, pydsdl, rng):
         if rng.random() < 0.4:
             b, expect = pydsdl.Set([pydsdl.Rational(x) for x in sh] + [pydsdl.Rational(1000)]), False
     elif kind == "string":
-        s = "".join(rng.choice("abé€") for _ in range(rng.randrange(0, 4)))
+        import unicodedata
+
+        s = "".join(rng.choice(["a", "b", "\u00e9", "\u20ac", "\u00c5", "\uac00", "\ufb03", "\u1e69"]) for _ in range(rng.randrange(0, 4)))
         a, b, expect = pydsdl.String(s), pydsdl.String("" + s), True
-        if rng.random() < 0.4:
+        r = rng.random()
+        if r < 0.3:
             b, expect = pydsdl.String(s + "x"), False
+        elif r < 0.65:
+            # canonically equivalent spellings (NFC vs NFD): whether they are == is not pinned, the contract is
+            b, expect = pydsdl.String(unicodedata.normalize(rng.choice(["NFD", "NFC", "NFKD"]), s)), None
+            if b.native_value == s:
+                expect = True
     elif kind == "bool":
         x, y = rng.random() < 0.5, rng.random() < 0.5
         a, b, expect = pydsdl.Boolean(x), pydsdl.Boolean(y), x == y
@@ -455,8 +463,13 @@ def expr_case(ctx, pydsdl, rng):
     case = {"a": repr(a), "b": repr(b), "kind": kind}
     ctx.mon("expr-pair")
     eq = pair_contract(ctx, a, b, "expression values", case)
-    if eq is not expect:
+    if expect is not None and eq is not expect:
         ctx.violation("C18/expr-eq", "%r == %r is %r, expected %r" % (a, b, eq, expect), case)
+    if eq is True and kind in ("string", "rational", "bool"):
+        # equal values must be interchangeable as members of a set value
+        sa, sb = pydsdl.Set([a]), pydsdl.Set([b])
+        if not (sa == sb and hash(sa) == hash(sb)):
+            ctx.violation("C18/hash", "%r == %r but Set([a]) != Set([b]) or their hashes differ" % (a, b), case)
     if rng.random() < 0.2:
         pickle_contract(ctx, a, pydsdl, case)
     ctx.case(("expr", repr(a), repr(b)), True, classes=["expr-" + kind])
